@@ -42,6 +42,11 @@ CHECKS = {
             "Every IR the frontend produces for the enumerated query space (k<=2 quick, k<=3 thorough; ~36k / ~2.5M queries) satisfies: Eid i -> Vid i+1, dense unique ids, one incoming edge per non-root vertex, folds precede their contents and Eids nest as intervals, edges go low->high, tags visible and defined no later than their use, imported_tags = exactly the parent-defined tags used inside the fold (no duplicates), variables recorded with the intersection of their use types and all used, outputs unique and indexed, all names defined in the schema text.",
             "Invariants are the checker's reading of ir/indexed.rs's comment and execution.rs's asserts (listed in DESIGN.md).",
             "DESIGN.md §4 C11"),
+    "C12": ("exploration",
+            "bounded-exhaustive enumeration: every accepted query with 1..=3 variables x every argument map over {absent, 17-value alphabet} per variable x {no surplus, surplus}; oracle = variable types re-derived from the AST + independent fits()",
+            "For every query of the enumerated space (k<=2 quick / k<=3 thorough, widened operator menu) with 1..=3 variables, every argument map over absent / null / ints incl. i64::MIN, u64::MAX / float / strings / bool / Enum / empty, int, null, string, mixed and nested lists per variable, with and without a surplus name, is validated by the real interpret_ir: accepted iff complete, no surplus, every value fits the type the query implies; on refusal the missing / unused / mistyped names are exactly the offending variables; a panic is a violation.",
+            "Variable types implied by a query are computed from the AST by the documented operator typing rules (reference::expected_variable_types).",
+            "DESIGN.md §4 C12"),
     "C13": ("exploration",
             "bounded-exhaustive program-space enumeration; declared outputs re-derived from the AST and every row value checked against the declared type with an independent typing relation",
             "For every accepted query within the bound: IndexedQuery.outputs (names and types) equals what the query text and schema imply (property type, nullable under @optional, one list level per @fold, nullable list when the fold is under @optional, Int! counts); for every row of every case: keys = declared names, each value fits its declared type.",
@@ -57,6 +62,11 @@ CHECKS = {
             "Two enumerated spaces (one folded edge + <=3 count/observer deviations; two edges with at least one fold + <=2 (quick) / <=3 (thorough) deviations) over datasets with fold sizes 0..3 and count arguments {-1,0,1,2,3,i64::MIN,u64::MAX,[],[2],[0,3]}: engine rows must equal the reference evaluator's, and for every case with a count filter adding a count @output, an @output inside the fold, or a nested fold with an @output must leave the projection on the original outputs unchanged.",
             "Reference evaluator trusted (Appendix A); observers are outputs (a tag needs a use, which is a filter and legitimately changes rows; tag observers are covered by oracle 1).",
             "DESIGN.md §4 C22"),
+    "C23": ("exploration",
+            "bounded-exhaustive program-space enumeration x every applicable instance of 8 metamorphic transformations; original and variant both executed on the real engine and the predicted multiset relation checked",
+            "For every accepted query within k<=2 (quick) / k<=3 (thorough) deviations, every applicable instance of: T1 add a filter (subset), T2 raise recursion depth (superset), T3 make an edge @optional (superset), T4 parameterised edge vs equivalent filter (equal), T5 '=' vs one_of [x] (equal), T6 filter / negation partition (disjoint union), T7 rename outputs and tags (equal up to keys), T8 swap adjacent siblings (equal), over 10 datasets and argument maps. Applicability conditions (not inside a fold; T6 also not under @optional; T4 not @optional/@recurse) are stated in the code next to each transformation.",
+            "Both sides are engine runs (no reference evaluator); quick tier applies T1/T6 to queries within k-1 deviations only.",
+            "DESIGN.md §4 C23"),
     "C06": ("model_checking",
             "explicit-state search over candidate values: BFS closure from ~1300 seed states, every transition calls the real intersect / exclude_single_value / normalize and is compared with a reference denotation (bitmask over a probe universe)",
             "All seed candidates (Impossible, All, Single, Multiple up to 3 values in both orders, every Range over the bound alphabet with every bound kind and null inclusion) for an integer sort (signed/unsigned boundaries) and a string sort; every ordered pair is intersected, every value excluded, every state normalised; the state space is closed under these operations (no new states appear), so the search is a fixpoint.",
